@@ -571,6 +571,13 @@ func (g *sgen) instanceFor(s map[string]interface{}, root map[string]interface{}
 				m["type"] = g.pick([]string{"array", "string", "object"})
 			}
 		}
+		// an undeclared member called "headers" holding objects with a "$ref": where additionalProperties is false the code adds
+		// its IMPORTANT!-tagged message (the one that travels up through failed anyOf/oneOf branches)
+		if ap, isBool := s["additionalProperties"].(bool); isBool && !ap && g.p(25) {
+			if _, has := m["headers"]; !has {
+				m["headers"] = map[string]interface{}{"X-A": map[string]interface{}{"$ref": "#/x"}, "X-B": map[string]interface{}{"type": "string"}}
+			}
+		}
 		if g.p(35) {
 			k := g.pick(namePool)
 			if _, has := m[k]; !has {
